@@ -5,20 +5,26 @@ from engine import core, mir, lenana
 from engine.core import RuleResult
 
 EXPLANATION = (
-    "Static analysis of rustc MIR. Every potential panic site of the decoder layer (bounds / overflow / divide-by-zero "
-    "Assert terminators and calls of the frozen list of panicking std/bytes APIs) in the functions listed in "
-    "rules/c07.py is enumerated and must be PROVEN by the length analysis (engine/lenana.py: forward abstract "
+    "Static analysis of rustc MIR. Scope: the network-facing decoder/handler functions listed in rules/c07.py PLUS every "
+    "crate function they transitively call and every closure/coroutine nested in those (a panic anywhere below an entry "
+    "point kills the same task). Every potential panic site in that scope - bounds / overflow / divide-by-zero Assert "
+    "terminators, calls of the modelled panicking std/bytes APIs, and calls of ANY std/bytes function whose documentation "
+    "has a `# Panics` section (tables/std_panics.json, generated from rust-src; reviewed ASSUMED_TOTAL exclusions in "
+    "engine/lenana.py) - is enumerated and must be PROVEN by the length analysis (engine/lenana.py: forward abstract "
     "interpretation over difference constraints on integer locals and buffer lengths, with cursor accounting, slicing, "
-    "branch refinement, iterator ranges, callee preconditions on buffer parameters checked at call sites), or be listed "
-    "in tables/c07_sites.json with a reviewed reason (TABLE-SAFE) or in KNOWN_FINDINGS.txt. A new site, or a site that "
-    "stops being provable (e.g. a weakened length check), is a violation. Decides absence of panics at these sites for "
-    "all inputs relative to the library model; hangs, allocation size and stateful handlers' counter arithmetic are "
-    "only covered where listed; panics inside dependencies are not decided.")
+    "branch refinement, iterator ranges, range-argument ordering, callee preconditions on buffer parameters checked at "
+    "call sites), or be listed in tables/c07_sites.json with a reviewed reason (TABLE-SAFE) or in KNOWN_FINDINGS.txt. A new "
+    "site, or a site that stops being provable (e.g. a weakened length check), is a violation. Decides absence of panics at "
+    "these sites for all inputs relative to the library model; hangs and allocation size are not decided; panics inside "
+    "dependencies are not decided; calls through trait objects and work handed to other tasks through channels are not "
+    "followed by the closure.")
 ASSUMPTIONS = [
     "A-64: 64-bit sums of lengths, <=32-bit wire fields, constants and accumulators of those cannot reach 2^64 (inputs <= 64 KiB, loops make progress)",
+    "A-32 (table reasons that cite it): a 32-bit counter of events that each need a packet sent by this endpoint or a network round trip does not reach 2^32 within one connection",
     "buffer lengths are < 2^40",
-    "library model of std/bytes panicking APIs (engine/lenana.py LIBRARY_MODEL) is complete for the APIs used in scope",
+    "library model of std/bytes panicking APIs (engine/lenana.py LIBRARY_MODEL) plus the documented-panics table is complete for the APIs used in scope",
     "unsigned comparisons only; signed arithmetic is not modelled (such sites are never PROVEN)",
+    "local configuration is sane where a table reason says so (sctp_rto_min <= sctp_rto_max, port range start <= end)",
 ]
 TRUSTED_BASE = ["rustc MIR construction (explicit Assert terminators for every checked operation)", "engine/lenana.py transfer functions and library model",
                 "tables/c07_sites.json (reviewed reasons)"]
@@ -66,6 +72,36 @@ def in_scope(name):
         return True
     base = name.split("::{closure")[0]
     return base in SCOPE_FUNCS
+
+
+CLOSURE_EXCLUDE = ("::tests::",)
+
+
+def scope_closure(facts):
+    """the listed decoder-layer functions plus every crate function they (transitively) call and every closure /
+    coroutine nested in one of those: a panic anywhere below a network-facing entry point kills the same task."""
+    roots = [b.name for b in facts.all_bodies() if in_scope(b.name)]
+    seen = set(roots)
+    work = list(roots)
+    nested = {}
+    for n in facts.order:
+        i = n.find("::{")
+        while i != -1:
+            nested.setdefault(n[:i], []).append(n)
+            i = n.find("::{", i + 3)
+    while work:
+        n = work.pop()
+        b = facts.body(n)
+        cands = []
+        for bi, t, p in b.calls():
+            cands.append(p)
+            cands.append(t["f"].get("fn"))
+        cands += nested.get(n, [])
+        for c in cands:
+            if c and c not in seen and facts.has_body(c) and not any(e in c for e in CLOSURE_EXCLUDE) and not c.startswith("tests::"):
+                seen.add(c)
+                work.append(c)
+    return [n for n in facts.order if n in seen]
 
 
 BUF_TYS = ("[u8]", "bytes::Bytes", "bytes::BytesMut", "Vec<u8>", "&str", "String")
@@ -154,7 +190,7 @@ CAND = (1, 2, 3, 4, 6, 8, 10, 12, 14, 16, 20, 24, 28, 32, 36, 40, 48, 64)
 def analyse_all(ctx):
     """returns (sites by function, summaries)"""
     facts = ctx.facts
-    bodies = [b for b in facts.all_bodies() if in_scope(b.name)]
+    bodies = [facts.body(n) for n in scope_closure(facts)]
     # pass 1: infer preconditions  len(param) >= K  that make all parameter-related obligations provable
     summaries = {}
     ranges = helper_ranges(facts)
@@ -253,8 +289,8 @@ def r07_1(ctx):
     keyed = site_keys(sites_by_fn)
     r.scope = sorted(sites_by_fn)[:400]
     nsites = len(keyed)
-    r.need("decoder-layer functions analysed", len(sites_by_fn), 150)
-    r.need("potential panic sites", nsites, 600)
+    r.need("functions analysed (decoder layer + call closure)", len(sites_by_fn), 1400)
+    r.need("potential panic sites", nsites, 1200)
     proven = tabled = 0
     used = set()
     for key, s in keyed:
